@@ -285,6 +285,10 @@ impl Report {
     /// Print KNOWN-FINDING / VIOLATION lines, write replay files; returns the number of
     /// violations that are not listed as known.
     pub fn conclude(&self) -> u64 {
+        if is_worker() {
+            // a worker only looks for crashes; value divergences are the owning property's business
+            return 0;
+        }
         let g = self.inner.lock().unwrap();
         let mut violations = 0;
         let _ = std::fs::create_dir_all(format!("{VERIF}/replays"));
@@ -326,6 +330,10 @@ impl Report {
 
     /// write /verif/evidence/<id>.json
     pub fn write_evidence(&self, coverage: Value, assumptions: &[&str], violations: u64) {
+        if is_worker() {
+            println!("WORKER-COVERAGE {} {}", self.property, serde_json::to_string(&json!({"evaluations": coverage["evaluations"], "states": coverage["states"]})).unwrap());
+            return;
+        }
         let _ = std::fs::create_dir_all(format!("{VERIF}/evidence"));
         let ev = json!({
             "property_id": self.property,
@@ -377,4 +385,98 @@ pub fn sample_pick(n: usize, seed: u64, want: usize) -> Vec<usize> {
 pub fn machinery_failure(msg: &str) -> ! {
     eprintln!("MACHINERY-FAILURE: {msg}");
     std::process::exit(2);
+}
+
+// ---------------------------------------------------------------- C07 worker support
+
+use std::sync::atomic::{AtomicBool, Ordering as AtomicOrdering};
+
+/// true inside a C07 worker process (trapping build): evidence/replay files are not written,
+/// every panic and fatal signal is reported on stderr together with the case in progress
+pub static WORKER: AtomicBool = AtomicBool::new(false);
+
+/// a quick-tier C07 worker runs reduced versions of the other properties' drivers
+pub fn reduced() -> bool {
+    is_worker() && std::env::var("VCHECK_REDUCED").is_ok()
+}
+
+pub fn is_worker() -> bool {
+    WORKER.load(AtomicOrdering::Relaxed)
+}
+
+const CASE_CAP: usize = 700;
+
+struct CaseBuf {
+    len: std::cell::Cell<usize>,
+    buf: std::cell::UnsafeCell<[u8; CASE_CAP]>,
+}
+
+thread_local! {
+    static CUR: CaseBuf = const { CaseBuf { len: std::cell::Cell::new(0), buf: std::cell::UnsafeCell::new([0u8; CASE_CAP]) } };
+}
+
+/// remember what this thread is working on (only evaluated inside a worker)
+pub fn set_case(f: impl FnOnce() -> String) {
+    if !is_worker() {
+        return;
+    }
+    let s = f();
+    CUR.with(|c| {
+        let n = s.len().min(CASE_CAP);
+        unsafe { (&mut *c.buf.get())[..n].copy_from_slice(&s.as_bytes()[..n]) };
+        c.len.set(n);
+    });
+}
+
+fn current_case() -> String {
+    CUR.with(|c| String::from_utf8_lossy(unsafe { &(&*c.buf.get())[..c.len.get()] }).into_owned())
+}
+
+extern "C" {
+    fn signal(sig: i32, handler: extern "C" fn(i32)) -> usize;
+    fn write(fd: i32, buf: *const u8, n: usize) -> isize;
+    fn _exit(code: i32) -> !;
+}
+
+extern "C" fn on_fatal_signal(sig: i32) {
+    unsafe {
+        let head = b"\nC07-ABORT signal=";
+        write(2, head.as_ptr(), head.len());
+        let digits = [b'0' + (sig / 10) as u8, b'0' + (sig % 10) as u8];
+        write(2, digits.as_ptr(), 2);
+        let mid = b" case=";
+        write(2, mid.as_ptr(), mid.len());
+        CUR.with(|c| {
+            write(2, (*c.buf.get()).as_ptr(), c.len.get());
+        });
+        write(2, b"\n".as_ptr(), 1);
+        _exit(100 + sig);
+    }
+}
+
+pub fn enter_worker_mode() {
+    WORKER.store(true, AtomicOrdering::Relaxed);
+    std::panic::set_hook(Box::new(|info| {
+        let loc = info.location().map(|l| format!("{}:{}", l.file(), l.line())).unwrap_or_else(|| "?".into());
+        let msg = info.payload().downcast_ref::<String>().cloned().or_else(|| info.payload().downcast_ref::<&str>().map(|s| s.to_string())).unwrap_or_default();
+        eprintln!("C07-PANIC at={loc} msg={} case={}", msg.replace('\n', " "), current_case());
+    }));
+    unsafe {
+        for sig in [6, 11, 4, 7, 8] {
+            signal(sig, on_fatal_signal);
+        }
+    }
+}
+
+/// in a worker the silent hook of the drivers must not replace the reporting hook
+pub fn silence_panics() {
+    if !is_worker() {
+        std::panic::set_hook(Box::new(|_| {}));
+    }
+}
+
+pub fn restore_panics() {
+    if !is_worker() {
+        let _ = std::panic::take_hook();
+    }
 }
